@@ -19,7 +19,8 @@
      one_succ cs u / one_pred cs u   u has exactly one successor / predecessor in the connection list cs *)
 From Coq Require Import QArith.
 From Verif Require Import Prelude Model.Sheet.
-From Verif Require Import Proofs.Sheet Proofs.Sheet2 Proofs.Sheet3 Proofs.Sheet4 Proofs.Sheet5 Proofs.Sheet6 Proofs.Sheet7.
+From Verif Require Import Proofs.Sheet Proofs.Sheet2 Proofs.Sheet3 Proofs.Sheet4 Proofs.Sheet5 Proofs.Sheet6 Proofs.Sheet7
+                          Proofs.Sheet8.
 Open Scope Z_scope.
 
 (* ---- accepted workbooks ---- *)
@@ -75,6 +76,17 @@ Print Assumptions C20_sanity_rejects.
 Theorem C20_accepted_is_sane : forall w n, convert w = Ok n -> sane (nodes_of w) (links_of_w w) (eqpts_of_w w).
 Proof. exact accepted_is_sane. Qed.
 Print Assumptions C20_accepted_is_sane.
+
+(* every rejection is one of the eight documented rules - or, outside them, the IndexError of a FUSED site of degree
+   < 2 (open finding) or the arithmetic error of a PMD value on a length <= 0; the KeyError / StopIteration places of
+   convert.py are unreachable *)
+Theorem C20_convert_errors : forall w e, convert w = Err e ->
+  (exists r, In r rules /\ e = topo_err r) \/
+  (In e build_errors /\
+   (e = "IndexError:site_degree"%string ->
+    exists n, In n (nodes_of w) /\ n_type n = TFused /\ (length (links_of (n_city n) (links_of_w w)) < 2)%nat)).
+Proof. exact convert_errors. Qed.
+Print Assumptions C20_convert_errors.
 
 (* ---- the full statement without the `wellformed` guard is false of the faithful model: witnesses (replayed on
         gnpy by the harness: corpus/C20/f20a..d) ---- *)
